@@ -48,6 +48,48 @@ type memWriter struct{ bytes.Buffer }
 
 func (m *memWriter) Flush() error { return nil }
 
+type secOutput interface {
+	io.Writer
+	Flush() error
+	Bytes() []byte
+}
+
+// memSeekWriter is a seekable in-memory output (io.WriteSeeker + Flush): with
+// it the Writer fills stream lengths in afterwards instead of writing them as
+// separate objects.
+type memSeekWriter struct {
+	buf []byte
+	pos int64
+}
+
+func (m *memSeekWriter) Write(p []byte) (int, error) {
+	end := m.pos + int64(len(p))
+	if end > int64(len(m.buf)) {
+		m.buf = append(m.buf, make([]byte, end-int64(len(m.buf)))...)
+	}
+	copy(m.buf[m.pos:], p)
+	m.pos = end
+	return len(p), nil
+}
+
+func (m *memSeekWriter) Seek(off int64, whence int) (int64, error) {
+	switch whence {
+	case io.SeekStart:
+		m.pos = off
+	case io.SeekCurrent:
+		m.pos += off
+	case io.SeekEnd:
+		m.pos = int64(len(m.buf)) + off
+	}
+	if m.pos < 0 {
+		return 0, fmt.Errorf("negative position")
+	}
+	return m.pos, nil
+}
+
+func (m *memSeekWriter) Flush() error  { return nil }
+func (m *memSeekWriter) Bytes() []byte { return m.buf }
+
 func optHex(b []byte, err error) string {
 	if err != nil {
 		return "!"
@@ -81,18 +123,34 @@ func pwSASL(pw string) string {
 	return hexWire([]byte(prepped))
 }
 
-// prepKey returns the password as the handler of revision R compares it.
+// secPadString is the padding string of ISO 32000-2 7.6.4.3.2 (typed from the
+// standard, not taken from crypto.go).
+var secPadString = []byte{
+	0x28, 0xBF, 0x4E, 0x5E, 0x4E, 0x75, 0x8A, 0x41, 0x64, 0x00, 0x4E, 0x56, 0xFF, 0xFA, 0x01, 0x08,
+	0x2E, 0x2E, 0x00, 0xB6, 0xD0, 0x68, 0x3E, 0x80, 0x2F, 0x0C, 0xA9, 0xFE, 0x64, 0x53, 0x69, 0x7A,
+}
+
+// prepKey returns the password in the form the standard compares: for R <= 4
+// the PDFDocEncoding bytes padded/truncated to 32 bytes, for R >= 5 the
+// SASLprep form truncated to 127 bytes (bytes, not characters).  It does not
+// use crypto.go's padPasswd/utf8Passwd, so that a defect there shows up as a
+// failing input of the oracle.
 func prepKey(R int, pw string) (string, bool) {
 	if R < 5 {
-		b, err := pdf.VerifPadPasswd(pw)
-		if err != nil {
+		enc, ok := pdf.PDFDocEncode(pw)
+		if !ok {
 			return "", false
 		}
-		return string(b), true
+		b := append([]byte(enc), secPadString...)
+		return string(b[:32]), true
 	}
-	b, err := pdf.VerifUtf8Passwd(pw)
+	prepped, err := stringprep.SASLprep.Prepare(pw)
 	if err != nil {
 		return "", false
+	}
+	b := []byte(prepped)
+	if len(b) > 127 {
+		b = b[:127]
 	}
 	return string(b), true
 }
@@ -266,4 +324,86 @@ func askDriver(lines []string) ([]string, error) {
 		return nil, fmt.Errorf("driver answered %d lines for %d", len(res), len(lines))
 	}
 	return res, nil
+}
+
+// ---- passwords around the 127-byte truncation of revision 6 ----
+
+var secWideChars = map[int][]rune{
+	2: {0xe9, 0xe8, 0xea, 0x100, 0x107, 0x3b1, 0x3b2, 0x416},
+	3: {0x6f22, 0x6f23, 0x5b57, 0x5b58, 0x4e2d, 0x20ac, 0x3042, 0x3043},
+	4: {0x1d11e, 0x1d11f, 0x10300, 0x10301, 0x20000, 0x20001, 0x2000b},
+}
+
+type boundaryPw struct {
+	pw       string
+	variants []string
+}
+
+// genBoundaryPassword makes a password whose SASLprep form has 120..135 bytes
+// with a 2-, 3- or 4-byte character around byte 127 (straddling it, ending
+// just before it, or starting at it), and variants which differ from it only
+// in that character, only before it, or only after it.
+func genBoundaryPassword(r *Rand) boundaryPw {
+	for {
+		w := 2 + r.Intn(3)
+		// start index of the wide character: from "ends at byte 126" to "starts at byte 127"
+		s := 127 - w + r.Intn(w+1)
+		total := 120 + r.Intn(16)
+		if total < s+w {
+			total = s + w + r.Intn(4)
+		}
+		letters := func(n int) []rune {
+			rs := make([]rune, n)
+			for i := range rs {
+				rs[i] = rune('a' + r.Intn(26))
+			}
+			return rs
+		}
+		pre := letters(s)
+		// sometimes more wide characters earlier on (keeping the byte position)
+		if r.P(1, 2) && s > 12 {
+			w2 := 2 + r.Intn(3)
+			at := r.Intn(s - w2 - 2)
+			pre = append(append(append([]rune{}, pre[:at]...), Pick(r, secWideChars[w2])), pre[at+w2:]...)
+		}
+		c := Pick(r, secWideChars[w])
+		tail := letters(total - s - w)
+		mk := func(pre []rune, c rune, tail []rune) string {
+			return string(pre) + string(c) + string(tail)
+		}
+		pw := mk(pre, c, tail)
+		prepped, err := stringprep.SASLprep.Prepare(pw)
+		if err != nil || prepped != pw {
+			continue
+		}
+		res := boundaryPw{pw: pw}
+		// the wide character replaced by every other one of its width
+		for _, c2 := range secWideChars[w] {
+			if c2 != c {
+				res.variants = append(res.variants, mk(pre, c2, tail))
+			}
+		}
+		// ... by one of another width (shifts what follows)
+		res.variants = append(res.variants, mk(pre, Pick(r, secWideChars[2+(w-1)%3]), tail))
+		// only before it
+		if len(pre) > 0 {
+			p2 := append([]rune{}, pre...)
+			p2[len(p2)-1] = 'A'
+			res.variants = append(res.variants, mk(p2, c, tail))
+			p3 := append([]rune{}, pre...)
+			p3[r.Intn(len(p3))] = 'B'
+			res.variants = append(res.variants, mk(p3, c, tail))
+		}
+		// only after it
+		if len(tail) > 0 {
+			t2 := append([]rune{}, tail...)
+			t2[0] = 'C'
+			res.variants = append(res.variants, mk(pre, c, t2))
+			t3 := append([]rune{}, tail...)
+			t3[len(t3)-1] = 'D'
+			res.variants = append(res.variants, mk(pre, c, t3))
+		}
+		res.variants = append(res.variants, mk(pre, c, nil), mk(pre, c, append(tail, 'z', 'z')), string(pre), string(pre)+"q")
+		return res
+	}
 }
